@@ -2,6 +2,7 @@ import CuqiVerif.Model.C09_target
 import CuqiVerif.Proofs.C09_target
 import CuqiVerif.Props.C09
 import CuqiVerif.Props.C01_full
+import Mathlib.Data.List.GetD
 
 /-!
 # C09 — the object handed to a block sampler IS the joint conditioned on the current other blocks
@@ -53,6 +54,9 @@ theorem gibbs_target_is_joint (Fs : List (Factor V K)) (hw : WF Fs) (σ₀ : Kw 
     simp only
     rw [condition_steps Fs hw.fok, List.append_nil, reduce_joint_of_two Fs σ₀ .plain h2]
   · simp only [parNames, Obj.paramNames, jointNames_st, freeNames]
+
+/-- the hypotheses are satisfiable: the docstring model, data `y`, three variables left free -/
+example := gibbs_target_is_joint docFs docFs_wf [("y", [3, 1])] (by decide)
 
 /-! ## one block -/
 
@@ -302,5 +306,34 @@ theorem sweepHanded_eq (P : Obj V K) (ds : Nat → Draw V) (g : HG Name V) :
       congr 2
   rw [key]
   simp
+
+/-- **sweepHanded_all_conditionals** — every entry of the executable list of objects handed along a sweep
+    (`sweepHanded`, what the driver's model computes next to `blockUpdate`) is built without exception, is
+    listed under its block in `par_names` order, and has that block as its only parameter: no block of a
+    sweep is ever handed a joint, another block's conditional or an error. -/
+theorem sweepHanded_all_conditionals [Stackable V] (Fs : List (Factor V K)) (hw : WF Fs) (σ₀ : Kw V)
+    (ds : Nat → Draw V) (g : HG Name V) (hg : g.names = freeNames Fs σ₀) :
+    (sweepHanded (Obj.joint .plain (Fs.map (st σ₀))) ds g).map (·.1) = g.names ∧
+    ∀ p ∈ sweepHanded (Obj.joint .plain (Fs.map (st σ₀))) ds g,
+      ∃ o, p.2 = .ok o ∧ o.paramNames = [p.1] := by
+  rw [sweepHanded_eq]
+  constructor
+  · apply List.ext_getElem
+    · simp
+    · intro i h1 h2
+      simp only [List.getElem_map, List.getElem_range]
+      rw [List.getD_eq_getElem _ _ h2]
+  · intro p hp
+    simp only [List.mem_map, List.mem_range] at hp
+    obtain ⟨i, hi, rfl⟩ := hp
+    have hmem : g.names.getD i "" ∈ freeNames Fs σ₀ := by
+      rw [← hg, List.getD_eq_getElem _ _ hi]; exact List.getElem_mem _
+    obtain ⟨o, ho, hp, _, _⟩ := handed_target_is_conditional Fs hw σ₀ (sweepL ds (g.names.take i) g).cur _ hmem
+    exact ⟨o, ho, hp⟩
+
+example (ds : Nat → Draw (List Int)) (nsteps : Name → Option Int) (init : Name → List Int)
+    (flags : Name → Bool × Bool × Bool) :=
+  sweepHanded_all_conditionals docFs docFs_wf [("y", [3, 1])] ds (construct ["x", "z", "s"] nsteps init flags)
+    (by show ["x", "z", "s"] = freeNames docFs [("y", [3, 1])]; decide)
 
 end CuqiVerif.C09
